@@ -236,6 +236,11 @@ func (d *onDriver) opFunc(c *onClient, pi int, op onOp) sched.Op {
 
 func (d *onDriver) Run(x *sched.Exec, raw json.RawMessage) json.RawMessage {
 	d.x = x
+	x.OptDouble, x.OptParkUnl = true, true
+	fine := x.OptParkUnl && !x.LogSteps && x.ParkUnl
+	if len(x.Sched) > 0 {
+		fine = x.OptParkUnl && !x.LogSteps && x.Sched[0] == "!parkunl"
+	}
 	if raw != nil {
 		if err := json.Unmarshal(raw, &d.sc); err != nil {
 			panic(err)
@@ -246,6 +251,7 @@ func (d *onDriver) Run(x *sched.Exec, raw json.RawMessage) json.RawMessage {
 	sc := d.sc
 	out, _ := json.Marshal(sc)
 	x.Log(trace.E{"ev": "init", "kind": sc.Kind})
+	x.Log(trace.E{"ev": "cfg", "fine": fine || sc.Burst})
 	if sc.Kind == "memo" {
 		d.memo = memo.MemoizeFunc(func() (int, error) { return d.fn(nil) })
 	} else {
